@@ -168,7 +168,7 @@ def _parse_disabled(name):
     return "address" in vars(NETS[name].parse)
 
 
-def oracle(op: str, out: str):
+def _oracle(op: str, out: str):
     a = op.split(" ")
     k = a[0]
     if k in ("c08kind", "c08addr") and _parse_disabled(a[1]):
@@ -260,7 +260,7 @@ def pushes(data: bytes):
     return out
 
 
-def gen(ctx, emit):
+def _gen(ctx, emit):
     rng = ctx.rng
 
     def rb(n):
@@ -421,3 +421,25 @@ def gen(ctx, emit):
             if len(sec) == 33:
                 emit("c08keyaddr %s bip49 %s" % (name, hx(sec)))
                 emit("c08keyaddr %s bip84 %s" % (name, hx(sec)))
+
+
+def oracle(op: str, out: str):
+    """the property evaluated on the implementation; on the unchanged tree no step of it raises"""
+    try:
+        return _oracle(op, out)
+    except ImportError:
+        return None   # Groestl hash library absent
+    except Exception as e:  # noqa: BLE001
+        return "evaluating the property on the implementation raised %s" % type(e).__name__
+
+
+def gen(ctx, emit):
+    import traceback
+    try:
+        _gen(ctx, emit)
+    except Exception as e:  # noqa: BLE001
+        tb = traceback.extract_tb(e.__traceback__)
+        where = next((fr for fr in reversed(tb) if "/pycoin/" in fr.filename), tb[-1])
+        ctx.violation("building the inputs through the public API raised %s" % type(e).__name__,
+                      "<generator> %s:%d %s" % (where.filename.split("/pycoin/")[-1], where.lineno, where.name),
+                      expected="the API calls the generators use succeed", observed=repr(e)[:200], kind="oracle")
